@@ -84,6 +84,48 @@ func c13Run(t failer, c *c13Case) (errThenOk bool, matchesTwice bool) {
 	lastErrOn := -1
 	for step, h := range c.History {
 		switch {
+		case h[0] == 'm':
+			// the CALLER changes the datum in place between calls (a key replaced by another one, same
+			// size, same map object): later calls must see the map as it is now
+			var i, j, nested int
+			fmt.Sscanf(h, "m%d:%d:%d", &i, &j, &nested)
+			mv := reflect.ValueOf(data[i])
+			model := c.Pool[i].Clone()
+			target := model
+			if nested == 1 && mv.Kind() == reflect.Map {
+				// descend into the first nested string-keyed map value, if any (the map a quantifier iterates)
+				for x, e := range model.Elems {
+					d := e.Dyn()
+					if d != nil && d.T.K == uni.KMap && d.T.Key.K == uni.KString && len(d.Keys) > 0 {
+						inner := mv.MapIndex(reflect.ValueOf(model.Keys[x].S).Convert(mv.Type().Key()))
+						for inner.IsValid() && inner.Kind() == reflect.Interface {
+							inner = inner.Elem()
+						}
+						if inner.IsValid() && inner.Kind() == reflect.Map {
+							mv, target = inner, d
+						}
+						break
+					}
+				}
+			}
+			if mv.Kind() == reflect.Map && mv.Len() > 0 && len(target.Keys) > 0 && target.T.Key.K == uni.KString {
+				j %= len(target.Keys)
+				oldKey := target.Keys[j].S
+				newKey := oldKey + "_r"
+				kv := reflect.ValueOf(oldKey).Convert(mv.Type().Key())
+				val := mv.MapIndex(kv)
+				if val.IsValid() && !mv.MapIndex(reflect.ValueOf(newKey).Convert(mv.Type().Key())).IsValid() {
+					held := reflect.New(val.Type()).Elem()
+					held.Set(val)
+					mv.SetMapIndex(kv, reflect.Value{})
+					mv.SetMapIndex(reflect.ValueOf(newKey).Convert(mv.Type().Key()), held)
+					target.Keys[j].S = newKey
+					c.Pool[i] = model
+					if aerr == nil {
+						wantRef[i] = c.Opts.Env(model).Eval(ast)
+					}
+				}
+			}
 		case h == "s":
 			if got := ev.Expression(); got != text {
 				violation(t, "C13", "TestC13_History", c, "Expression() = %q, created with %q", got, text)
@@ -238,7 +280,12 @@ func TestC13_History(t *testing.T) {
 		c := &c13Case{EvalCase: *newEvalCase(text, e, pool[0], o), Pool: pool}
 		steps := rapid.IntRange(2, 30).Draw(t, "steps")
 		for i := 0; i < steps; i++ {
-			switch k := rapid.IntRange(0, 9).Draw(t, "action"); {
+			k := rapid.IntRange(0, 9).Draw(t, "action")
+			if k == 5 && ty.K == uni.KMap {
+				c.History = append(c.History, fmt.Sprintf("m%d:%d:%d", rapid.IntRange(0, n-1).Draw(t, "mutDatum"), rapid.IntRange(0, 5).Draw(t, "mutKey"), rapid.IntRange(0, 1).Draw(t, "mutNested")))
+				continue
+			}
+			switch {
 			case k < 6:
 				c.History = append(c.History, "e"+strconv.Itoa(rapid.IntRange(0, n-1).Draw(t, "datum")))
 			case k < 9:
